@@ -61,6 +61,16 @@ CHECKS = {
    "Generated-input search: statements without LIMIT (plain, DISTINCT, join fan-out, aggregates) over inputs split into 1-3 files; for every n in 0..=rows+2 the LIMIT n run must print exactly the first n records of the unlimited run and consume exactly the lines up to the one producing the n-th row (0 for n = 0; everything for aggregates). Exploration over statements and data, exhaustive over n within each case.",
    "Consumption is read from statistics().total_lines; attribution of rows to lines by feeding the unlimited statement line by line through ExecutionEngine.",
    "DESIGN.md §3 C07"),
+ "C08": (True,
+   "property-based testing: metamorphic relation DISTINCT(Q) = first-occurrence dedup of Q under reference tuple equality, batch and every per-line refresh",
+   "Generated-input search: DISTINCT statements (select lists, `*`, aggregate DISTINCT with and without HAVING) over rows drawn from a small pool of tuples with near-duplicates (one column changed, NULL vs value, -0.0 vs 0.0, recurrence after gaps); the DISTINCT output must equal the first-occurrence dedup of the same statement without DISTINCT, for the batch run and for each refresh of the per-line path. Exploration, not proof.",
+   "Tuple equality of the oracle: NULL = NULL, numbers by value; tuples with non-finite REALs (NaN, inf: both print as null) are left to C16.",
+   "DESIGN.md §3 C08"),
+ "C11": (True,
+   "property-based testing over generated line histories: incremental engine (update+result per line) vs fresh batch run for every prefix k",
+   "Generated-history search: a long-lived ExecutionEngine is fed line by line as follow mode does; for every prefix k the shown table (aggregate) or the emitted rows (select) are compared, as printed JSON records, with a fresh FileExecutor batch run over exactly the first k lines. Exploration over statements and histories, exhaustive over k within each case.",
+   "Statements without LIMIT and without join (follow mode supports no join); the incremental table is rendered by the real OutputPrinter.",
+   "DESIGN.md §3 C11"),
 }
 
 NOT_YET = {
